@@ -76,7 +76,10 @@ Theorem C10_counts_of_a_flat_program_are_its_register_sizes fuel p :
              num_qubits (o_state o) = total_qubits p /\ num_clbits (o_state o) = total_clbits p) /\
   (exists o, run_visit false false [] fuel p = Ok o /\ o_stmts o = p /\
              num_qubits (o_state o) = total_qubits p /\ num_clbits (o_state o) = total_clbits p).
-Proof. exact (wf_flat_is_accepted_and_a_fixpoint fuel p). Qed.
+Proof.
+  intros Hw Hf. destruct (wf_flat_is_accepted_and_a_fixpoint fuel p Hw Hf) as [(o1 & E1 & A1 & B1 & _) (o2 & E2 & Ho & A2 & B2 & _)].
+  split; [exists o1; repeat split; assumption|exists o2; repeat split; assumption].
+Qed.
 Print Assumptions C10_counts_of_a_flat_program_are_its_register_sizes.
 
 Example C10_counts_example :
